@@ -16,7 +16,7 @@ from commonroad.common.util import AngleInterval, Interval
 from commonroad.geometry.shape import Circle, Polygon, Rectangle, Shape, ShapeGroup
 from commonroad.planning.goal import GoalRegion
 from commonroad.planning.planning_problem import PlanningProblem, PlanningProblemSet
-from commonroad.prediction.prediction import TrajectoryPrediction
+from commonroad.prediction.prediction import Occupancy, SetBasedPrediction, TrajectoryPrediction
 from commonroad.scenario import state as st
 from commonroad.scenario.obstacle import DynamicObstacle, ObstacleType, StaticObstacle
 from commonroad.scenario.trajectory import Trajectory
@@ -30,7 +30,8 @@ from symex.core import Sym
 
 ASSUMPTIONS = [
     "scenario: two lanelets with a traffic light and a sign, a static obstacle, a dynamic obstacle whose trajectory states are of a "
-    "symbolically chosen class (KS, PM, custom with velocity_y and no orientation, custom with velocity_y and orientation), a "
+    "symbolically chosen class (KS, PM, custom with velocity_y and no orientation, custom with velocity_y and orientation), a second "
+    "dynamic obstacle with a set-based prediction whose occupancies are not stored in chronological order, a "
     "planning problem with two goal states and a goal-lanelet table that is absent / a dict / a default dictionary as the XML reader "
     "builds it; positions, velocities, interval bounds and query arguments are symbolic reals / ints",
     "histories of 1 (quick) / 2 (thorough) read-only operations chosen symbolically among: occupancy / state / signal "
@@ -93,6 +94,9 @@ def build(V, state_kind, table_kind, symbolic=True):
     shape = Circle(1.0)
     dyn = DynamicObstacle(31, ObstacleType.CAR, shape, fx.init_state(0, x, y, 0.25, 1.0), TrajectoryPrediction(Trajectory(1, states), shape))
     sc.add_objects(dyn)
+    # a set-based prediction whose occupancies are not stored in chronological order
+    occs = [Occupancy(2, Rectangle(2.0, 1.0, np.array([R("set_x2", -20, 20, 6.0), 3.5]))), Occupancy(1, Rectangle(2.0, 1.0, np.array([5.0, 3.5])))]
+    sc.add_objects(DynamicObstacle(32, ObstacleType.BICYCLE, Rectangle(2.0, 1.0), fx.init_state(0, 4.0, 3.5, 0.0, 1.0), SetBasedPrediction(1, occs)))
     g0 = st.CustomState(time_step=Interval(0, 10), position=Rectangle(6.0, 4.0, np.array([R("goal_x", -20, 20, 3.0), 3.0])),
                         velocity=Interval(R("goal_v_lo", 0, 5, 0.0), R("goal_v_hi", 5, 30, 20.0)), orientation=AngleInterval(-1.0, 1.5))
     g1 = st.CustomState(time_step=Interval(5, 20))
@@ -136,6 +140,8 @@ def direct_view(sc, pps):
         if isinstance(o, DynamicObstacle) and isinstance(o.prediction, TrajectoryPrediction):
             tr = o.prediction.trajectory
             row.append((tr.initial_time_step, tuple(state_view(s) for s in tr.state_list), leaf(o.prediction.shape)))
+        elif isinstance(o, DynamicObstacle) and isinstance(o.prediction, SetBasedPrediction):
+            row.append(tuple((oc.time_step, leaf(oc.shape)) for oc in o.prediction.occupancy_set))
         out.append(tuple(row))
     for l in sc.lanelet_network.lanelets:
         out.append((l.lanelet_id, leaf(l.left_vertices), leaf(l.center_vertices), leaf(l.right_vertices), leaf(l.predecessor), leaf(l.successor),
@@ -149,8 +155,8 @@ def direct_view(sc, pps):
     for o in sc.obstacles:
         out.append(("assignment", o.obstacle_id, leaf(o.initial_center_lanelet_ids), leaf(o.initial_shape_lanelet_ids)))
         if isinstance(o, DynamicObstacle) and o.prediction is not None:
-            out.append(("prediction assignment", o.obstacle_id, _registry(o.prediction.center_lanelet_assignment),
-                        _registry(o.prediction.shape_lanelet_assignment), o.prediction.initial_time_step, o.prediction.final_time_step))
+            out.append(("prediction assignment", o.obstacle_id, _registry(getattr(o.prediction, "center_lanelet_assignment", None)),
+                        _registry(getattr(o.prediction, "shape_lanelet_assignment", None)), o.prediction.initial_time_step, o.prediction.final_time_step))
     for tl in sc.lanelet_network.traffic_lights:
         cyc = tl.traffic_light_cycle
         out.append((tl.traffic_light_id, leaf(tl.position), tl.active, tl.direction,
@@ -261,6 +267,7 @@ def op_occupancy_set(V, sc, pps):
     for o in sc.dynamic_obstacles:
         _quiet(lambda: o.prediction.occupancy_set)
         _quiet(lambda: o.prediction.final_time_step)
+        _quiet(lambda: o.prediction.initial_time_step)
 
 
 def op_scenario_queries(V, sc, pps):
@@ -294,6 +301,8 @@ def op_further_queries(V, sc, pps):
         _quiet(lambda: str(o))
         _quiet(lambda: str(o.initial_state))
     for o in sc.dynamic_obstacles:
+        if not isinstance(o.prediction, TrajectoryPrediction):
+            continue
         tr = o.prediction.trajectory
         _quiet(lambda: tr.state_at_time_step(t))
         _quiet(lambda: tr.final_state)
@@ -322,6 +331,8 @@ def op_further_queries(V, sc, pps):
 def op_goal_checks(V, sc, pps):
     for p in pps.planning_problem_dict.values():
         for o in sc.dynamic_obstacles:
+            if not isinstance(o.prediction, TrajectoryPrediction):
+                continue
             for s in o.prediction.trajectory.state_list:
                 _quiet(lambda: p.goal.is_reached(s))
             _quiet(lambda: p.goal_reached(o.prediction.trajectory))
